@@ -2602,7 +2602,7 @@ class Convex:
             elif self.xtype == 'F':
                 output = self.multiplier*self.sign*np.log(1+np.exp(value_in)) + value_out
             elif self.xtype == 'P':
-                output = self.multiplier*self.sign*(value_in * np.log(1/value_in)).sum()
+                output = - self.multiplier*self.sign*(value_in * np.log(1/value_in)).sum()
                 output += value_out
             elif self.xtype == 'T':
                 expo = self.params[0] / self.params[1]
@@ -4589,7 +4589,7 @@ class DecConvex(Convex):
                     item += value_out
                     output.append(item)
                 elif self.xtype == 'P':
-                    item = self.multiplier*self.sign*(value_in*np.log(1/value_in)).sum()
+                    item = -self.multiplier*self.sign*(value_in*np.log(1/value_in)).sum()
                     item += value_out
                     output.append(item)
                 elif self.xtype == 'G':
